@@ -155,6 +155,10 @@ class _Expr(ast.NodeTransformer):
                 and isinstance(n.args[1], ast.Tuple) and n.args[1].elts and _pure(n.args[0]) and all(_pure(e) for e in n.args[1].elts):
             vals = [ast.copy_location(ast.Call(func=ast.Name(id='isinstance', ctx=ast.Load()), args=[n.args[0], e], keywords=[]), n) for e in n.args[1].elts]
             return vals[0] if len(vals) == 1 else ast.copy_location(ast.BoolOp(op=ast.Or(), values=vals), n)
+        # N32 getattr(x, '<identifier>') -> x.<identifier>
+        if isinstance(n.func, ast.Name) and n.func.id == 'getattr' and len(n.args) == 2 and not n.keywords and isinstance(n.args[1], ast.Constant) \
+                and isinstance(n.args[1].value, str) and n.args[1].value.isidentifier() and not n.args[1].value.startswith('__'):
+            return ast.copy_location(ast.Attribute(value=n.args[0], attr=n.args[1].value, ctx=ast.Load()), n)
         if isinstance(n.func, ast.Name) and n.func.id == 'type' and len(n.args) == 1 and not n.keywords:
             a = n.args[0]
             t = None
@@ -360,6 +364,28 @@ class Canon(object):
                 brk = ast.copy_location(ast.If(test=negate(s.test), body=[ast.copy_location(ast.Break(), s)], orelse=[]), s)
                 s = ast.copy_location(ast.While(test=ast.copy_location(ast.Constant(value=True), s), body=[brk] + s.body, orelse=[]), s)
                 self.hit('N21')
+            # N31 for x in (<2..6 literal, call-free elements>): B   ->   B[x:=e1] ; B[x:=e2] ; ...   (B does not assign x, no break / continue / else)
+            if isinstance(s, ast.For) and not s.orelse and isinstance(s.target, ast.Name) and isinstance(s.iter, (ast.Tuple, ast.List)) \
+                    and 2 <= len(s.iter.elts) <= 6 and all(_pure(e) and not isinstance(e, ast.Starred) for e in s.iter.elts) \
+                    and not any(isinstance(x, (ast.Break, ast.Continue, ast.FunctionDef, ast.AsyncFunctionDef, ast.Lambda)) for b in s.body for x in ast.walk(b)) \
+                    and not any(isinstance(x, ast.Name) and x.id == s.target.id and isinstance(x.ctx, (ast.Store, ast.Del)) for b in s.body for x in ast.walk(b)):
+                var = s.target.id
+
+                class _S(ast.NodeTransformer):
+                    def __init__(self, e):
+                        self.e = e
+
+                    def visit_Name(self, n):
+                        if n.id == var and isinstance(n.ctx, ast.Load):
+                            return copy.deepcopy(self.e)
+                        return n
+                unrolled = []
+                for e in s.iter.elts:
+                    for b in s.body:
+                        unrolled.append(self.ex.visit(_S(e).visit(copy.deepcopy(b))))
+                out.extend(self.expand(unrolled))
+                self.hit('N31')
+                continue
             # N12 if A or B: <single jump>  ->  if A: <jump> ; if B: <jump>
             if isinstance(s, ast.If) and not s.orelse and isinstance(s.test, ast.BoolOp) and isinstance(s.test.op, ast.Or) and _single_jump(s):
                 for v in s.test.values:
